@@ -1,5 +1,6 @@
 import Pds.Proofs.KernelTie.TdCore
 import Pds.Proofs.KernelTie.TdRead
+import Pds.Props.C15
 /-!
 # C15 — tie by translation: `interpolate` and `clamped_mean` of `src/tdigest.rs`
 The two functions through which `quantile` and `cdf` produce every value they return.
@@ -25,5 +26,63 @@ theorem quantile_translated (s : St α) (mn mx q : α) (hmin : s.min = some mn) 
 theorem cdf_translated (s : St α) (mn mx x : α) (hmin : s.min = some mn) (hmax : s.max = some mx) :
     Pds.Generated.Kernels.td_cdf s.centroids mn mx x =
       match cdfInner s x with | some r => Flow.ret r | none => Flow.panic := td_cdf_eq s mn mx x hmin hmax
+
+/-- `quantile` answers NaN only on an empty digest -/
+theorem nan_only_if_empty {s : St α} {q mn mx : α} (hmin : s.min = some mn) (hmax : s.max = some mx)
+    (hq : quantileInner s q = .nan) : s.centroids = [] := by
+  unfold quantileInner at hq
+  cases hc : s.centroids with
+  | nil => rfl
+  | cons c0 cs =>
+    exfalso
+    rw [hc, hmin, hmax] at hq
+    simp only at hq
+    split at hq
+    · cases hq
+    · split at hq
+      · cases hq
+      · cases hq
+      · cases hg : (c0 :: cs).getLast? with
+        | none => simp at hg
+        | some cl => rw [hg] at hq; cases hq
+
+/-! ### the clauses of C15, for the translated `quantile` and `cdf` themselves -/
+
+/-- what the translated `quantile` returns on a well-formed digest lies within `[min, max]` -/
+theorem quantile_translated_in_range {s : St α} (h : WF s) {q v mn mx : α} (hq0 : 0 ≤ q) (hq1 : q ≤ 1)
+    (hmin : s.min = some mn) (hmax : s.max = some mx)
+    (hv : Pds.Generated.Kernels.td_quantile s.centroids mn mx q = Flow.ret v) (hne : s.centroids ≠ []) :
+    mn ≤ v ∧ v ≤ mx := by
+  rw [td_quantile_eq s mn mx q hmin hmax] at hv
+  cases hq : quantileInner s q with
+  | nan => exact absurd (nan_only_if_empty hmin hmax hq) hne
+  | val w =>
+    rw [hq] at hv
+    have : w = v := by simpa using hv
+    subst this
+    exact Pds.Props.C15.quantile_in_range h hq0 hq1 hq hmin hmax
+  | panic => rw [hq] at hv; simp at hv
+
+/-- the translated `quantile` is non-decreasing in `q` -/
+theorem quantile_translated_mono {s : St α} (h : WF s) {q₁ q₂ v₁ v₂ mn mx : α} (h0 : 0 ≤ q₁) (h12 : q₁ ≤ q₂) (h1 : q₂ ≤ 1)
+    (hmin : s.min = some mn) (hmax : s.max = some mx) (hne : s.centroids ≠ [])
+    (hv₁ : Pds.Generated.Kernels.td_quantile s.centroids mn mx q₁ = Flow.ret v₁)
+    (hv₂ : Pds.Generated.Kernels.td_quantile s.centroids mn mx q₂ = Flow.ret v₂) : v₁ ≤ v₂ := by
+  rw [td_quantile_eq s mn mx _ hmin hmax] at hv₁ hv₂
+  have key : ∀ q v, (match quantileInner s q with
+      | .nan => (Flow.ret KOps.nan : Flow α Unit) | .val w => Flow.ret w | .panic => Flow.panic) = Flow.ret v →
+      quantileInner s q = .val v := by
+    intro q v hv
+    cases hq : quantileInner s q with
+    | nan => exact absurd (nan_only_if_empty hmin hmax hq) hne
+    | val w => rw [hq] at hv; simp at hv; rw [hv]
+    | panic => rw [hq] at hv; simp at hv
+  exact Pds.Props.C15.quantile_mono h h0 h12 h1 (key _ _ hv₁) (key _ _ hv₂)
+
+/-- the translated `cdf` never panics on a well-formed digest and answers within `[0, 1]` -/
+theorem cdf_translated_in_unit {s : St α} (h : WF s) (x : α) {mn mx : α} (hmin : s.min = some mn) (hmax : s.max = some mx) :
+    ∃ v, Pds.Generated.Kernels.td_cdf s.centroids mn mx x = Flow.ret v ∧ 0 ≤ v ∧ v ≤ 1 := by
+  obtain ⟨v, hv, h0, h1⟩ := Pds.Props.C15.cdf_in_unit h x
+  exact ⟨v, by rw [td_cdf_eq s mn mx x hmin hmax, hv], h0, h1⟩
 
 end Pds.Tie.C15
